@@ -343,6 +343,13 @@ type c02World struct {
 	layout  []c02Entry          // what is configured now (outgoing scenario with reloads)
 	etcd    *backendStorageEtcd // Etcd configurations
 	plan    *c02FaultPlan       // outgoing scenario: which requests the fake backends let fail (nil: none)
+	// what the callers of failed requests saw, where a client of the server can see it (hello, room join)
+	outcomes []c02Outcome
+}
+
+type c02Outcome struct {
+	Spec c02FaultSpec
+	Ok   bool // the client was answered as if the backend had answered
 }
 
 // backend<Name> is configured at the URL of endpoint Endpoint (base[Endpoint-1]) with Secret
@@ -1894,6 +1901,23 @@ func (p *c02FaultPlan) next(endpoint int, phase, step string) *c02FaultSpec {
 	return &p.struck[len(p.struck)-1]
 }
 
+// done: a replay named faults and all of them have struck: the rest of the history is not needed.
+func (p *c02FaultPlan) done() bool {
+	if p == nil || !p.scripted || len(p.script) == 0 {
+		return false
+	}
+	for _, f := range p.script {
+		hit := false
+		for _, g := range p.struck {
+			hit = hit || f == g
+		}
+		if !hit {
+			return false
+		}
+	}
+	return true
+}
+
 // arm: the fault the schedule has for this step (if any) is armed at the endpoint of this drive.
 func (d *c02Drive) arm(step string) bool {
 	w := d.w
@@ -1906,6 +1930,12 @@ func (d *c02Drive) arm(step string) bool {
 	}
 	w.fake.arm(d.id, c02WireKind(step), *spec)
 	return true
+}
+
+// outcome notes what the client saw of the step whose fault was armed last.
+func (d *c02Drive) outcome(ok bool) {
+	p := d.w.plan
+	d.w.outcomes = append(d.w.outcomes, c02Outcome{Spec: p.struck[len(p.struck)-1], Ok: ok})
 }
 
 // struck waits until the armed fault has hit a request and the backend is done with it (a slow
@@ -1928,29 +1958,40 @@ func (w *c02World) driveStart(id int, round int) *c02Drive {
 		if err := fc.SendHelloParams(w.base[id-1], HelloVersionV1, "", nil, TestBackendClientAuthParams{UserId: fmt.Sprintf("out%d", round)}); err != nil {
 			t.Fatal(err)
 		}
-		if msg, err := fc.RunUntilMessage(ctx); err != nil {
+		msg, err := fc.RunUntilMessage(ctx)
+		if err != nil {
 			t.Fatalf("outgoing: hello backend %d while the backend fails: %v", id, err)
-		} else if msg.Type != "error" {
-			t.Fatalf("outgoing: hello backend %d while the backend fails: answered %+v", id, msg)
 		}
 		d.struck("auth")
-		fc.CloseWithBye()
-	}
-	d.c = NewTestClient(t, w.server, w.hub)
-	if err := d.c.SendHelloParams(w.base[id-1], HelloVersionV1, "", nil, TestBackendClientAuthParams{UserId: fmt.Sprintf("out%d", round)}); err != nil {
-		t.Fatal(err)
-	}
-	if _, err := d.c.RunUntilHello(ctx); err != nil {
-		t.Fatalf("outgoing: hello backend %d: %v", id, err)
-	}
-	if d.arm("room/join") {
-		if _, err := d.c.JoinRoom(ctx, d.room); err == nil {
-			t.Fatalf("outgoing: join backend %d succeeded although the backend failed", id)
+		// the model says the client is told about the error; a server that gets the client through
+		// nevertheless is kept under observation (judged in Coq, code 5)
+		d.outcome(msg.Type == "hello")
+		if msg.Type == "hello" {
+			d.c = fc
+		} else {
+			fc.CloseWithBye()
 		}
-		d.struck("room/join")
 	}
-	if _, err := d.c.JoinRoom(ctx, d.room); err != nil {
-		t.Fatalf("outgoing: join backend %d: %v", id, err)
+	if d.c == nil {
+		d.c = NewTestClient(t, w.server, w.hub)
+		if err := d.c.SendHelloParams(w.base[id-1], HelloVersionV1, "", nil, TestBackendClientAuthParams{UserId: fmt.Sprintf("out%d", round)}); err != nil {
+			t.Fatal(err)
+		}
+		if _, err := d.c.RunUntilHello(ctx); err != nil {
+			t.Fatalf("outgoing: hello backend %d: %v", id, err)
+		}
+	}
+	joined := false
+	if d.arm("room/join") {
+		_, err := d.c.JoinRoom(ctx, d.room)
+		joined = err == nil
+		d.struck("room/join")
+		d.outcome(joined)
+	}
+	if !joined {
+		if _, err := d.c.JoinRoom(ctx, d.room); err != nil {
+			t.Fatalf("outgoing: join backend %d: %v", id, err)
+		}
 	}
 	c02WaitFor(t, "auth", d.grew("auth"))
 	c02WaitFor(t, "room/join", d.grew("room/join"))
@@ -2168,6 +2209,21 @@ func (w *c02World) reloadHistory(r *vrng) {
 	w.drive(1, 107)
 }
 
+// the fate of a request in model/OutReq.v
+func c02FateCoq(mode string) string {
+	switch {
+	case mode == "drop":
+		return "(fate_of 1)"
+	case strings.HasPrefix(mode, "partial"):
+		return "(fate_of 2)"
+	case strings.HasPrefix(mode, "500"):
+		return "(fate_of 3)"
+	case mode == "slow":
+		return "(fate_of 4)"
+	}
+	return "(fate_of 0)"
+}
+
 // scripts: configuration key -> the faults a replay file names for that world (present, possibly
 // empty: exactly these; absent: the fault schedule of the run)
 func c02Outgoing(t *testing.T, env verifEnv, sink *caseSink, cfgs []c02Cfg, scripts map[string][]c02FaultSpec) {
@@ -2176,6 +2232,7 @@ func c02Outgoing(t *testing.T, env verifEnv, sink *caseSink, cfgs []c02Cfg, scri
 		rounds = 12
 	}
 	terms := make([][]string, len(cfgs))
+	fates := make([][]string, len(cfgs))
 	total := 0
 	kinds := map[string]bool{}
 	faulted := map[string]bool{}
@@ -2201,6 +2258,9 @@ func c02Outgoing(t *testing.T, env verifEnv, sink *caseSink, cfgs []c02Cfg, scri
 				} else {
 					for round := 0; round < rounds; round++ {
 						for b := range cfg.Backends {
+							if w.plan.done() {
+								break // replay of named faults: the history ends with the drive in which the last one struck
+							}
 							w.drive(b+1, round)
 						}
 					}
@@ -2261,6 +2321,14 @@ func c02Outgoing(t *testing.T, env verifEnv, sink *caseSink, cfgs []c02Cfg, scri
 					}
 					js, _ := json.Marshal(c02Case{Id: id, Cfg: cfg, Outgoing: oj, Faults: under})
 					sink.jsonl.Write(append(js, '\n'))
+					if r.Spec != nil {
+						for _, o := range w.outcomes {
+							if o.Spec == *r.Spec {
+								fates[ci] = append(fates[ci], fmt.Sprintf("(%d%%N, %s, %s)", id, c02FateCoq(r.Fault), coqBool(o.Ok)))
+								sink.count(fmt.Sprintf("outgoing_fault_outcome_ok_%v", o.Ok))
+							}
+						}
+					}
 					if r.Fault != "" {
 						sink.count("outgoing_fault_" + r.Fault)
 						sink.count("outgoing_fault_kind_" + r.Kind)
@@ -2313,7 +2381,7 @@ func c02Outgoing(t *testing.T, env verifEnv, sink *caseSink, cfgs []c02Cfg, scri
 			continue
 		}
 		sink.extraFile(fmt.Sprintf("out_%03d", ci), "From Coq Require Import List ZArith NArith String.\nFrom Verif Require Import corr.Run_C02.\nImport ListNotations.\n"+
-			"Definition result := Eval vm_compute in judge_out_world "+coqList(terms[ci])+".\nPrint result.\n")
+			"Definition result := Eval vm_compute in (judge_out_world "+coqList(terms[ci])+" ++ judge_fates "+coqList(fates[ci])+")%list.\nPrint result.\n")
 	}
 	sink.stats.Notes = append(sink.stats.Notes,
 		"outgoing: every request that arrives at a fake backend is recorded before the backend answers or fails (connection closed without / in the middle of the answer, 500, no answer until the server's timeout); the records of a world are judged together by P_out (each request signed for the backend in force, no random used twice), the randoms of the whole run are compared by the harness as well",
